@@ -547,16 +547,17 @@ type TapConn struct {
 }
 
 type Wiretap struct {
-	mu      sync.Mutex
-	keylog  map[string]map[string][]byte // client random hex -> label -> secret
-	partial []byte
-	Conns   []*TapConn
-	byAddr  map[string][]*TapConn
-	All     []*TapPacket
-	Fails   []string // packets that should have been decodable but were not
-	nowNS   func() int64
-	Dgrams  [2]int
-	pending [2]map[int][]*TapPacket // packets per datagram ordinal, for delivery notification
+	mu           sync.Mutex
+	keylog       map[string]map[string][]byte // client random hex -> label -> secret
+	partial      []byte
+	Conns        []*TapConn
+	byAddr       map[string][]*TapConn
+	shadowBySCID map[string]*TapConn // server source ID -> shadow connection
+	All          []*TapPacket
+	Fails        []string // packets that should have been decodable but were not
+	nowNS        func() int64
+	Dgrams       [2]int
+	pending      [2]map[int][]*TapPacket // packets per datagram ordinal, for delivery notification
 }
 
 func NewWiretap(now func() int64) *Wiretap {
@@ -616,6 +617,25 @@ func (w *Wiretap) newConn(addr string, dcid []byte, ver uint32) *TapConn {
 	w.Conns = append(w.Conns, c)
 	w.byAddr[addr] = append(w.byAddr[addr], c)
 	return c
+}
+
+// shadowOf returns (creating it if needed) the shadow of c that the server runs under source ID scid.
+func (w *Wiretap) shadowOf(c *TapConn, clientAddr string, scid []byte) *TapConn {
+	if sh := c.shadows[string(scid)]; sh != nil {
+		return sh
+	}
+	sh := w.newConn(clientAddr, c.InitDCID, c.Version)
+	sh.ODCID, sh.Shadow, sh.Main, sh.ServerSCID = c.ODCID, true, c, append([]byte{}, scid...)
+	w.byAddr[clientAddr] = w.byAddr[clientAddr][:len(w.byAddr[clientAddr])-1] // not a candidate for lookups
+	if c.shadows == nil {
+		c.shadows = map[string]*TapConn{}
+	}
+	c.shadows[string(scid)] = sh
+	if w.shadowBySCID == nil {
+		w.shadowBySCID = map[string]*TapConn{}
+	}
+	w.shadowBySCID[string(scid)] = sh
+	return sh
 }
 
 func (w *Wiretap) findConn(addr string, dir int, dcid, scid []byte, long bool) *TapConn {
@@ -775,21 +795,15 @@ func (w *Wiretap) Datagram(dir, ord int, clientAddr string, d []byte) []*TapPack
 			// destination CID makes the server start another connection from the same ClientHello. It shares the
 			// Initial keys but has its own source CID, numbering and TLS secrets (which collide in the key log):
 			// follow it separately as a shadow and never judge its protected packets.
-			if c != nil && dir == 1 && t != 3 {
+			if sh := w.shadowBySCID[string(p.SCID)]; sh != nil && dir == 1 && t != 3 {
+				// a source ID already known to belong to a shadow (with zero-length client IDs the address lookup
+				// above returns the newest connection of the address, not the one the shadow was split off from)
+				c = sh
+			} else if c != nil && dir == 1 && t != 3 {
 				if c.ServerSCID == nil {
 					c.ServerSCID = append([]byte{}, p.SCID...)
 				} else if !bytes.Equal(c.ServerSCID, p.SCID) {
-					sh := c.shadows[string(p.SCID)]
-					if sh == nil {
-						sh = w.newConn(clientAddr, c.InitDCID, c.Version)
-						sh.ODCID, sh.Shadow, sh.Main, sh.ServerSCID = c.ODCID, true, c, append([]byte{}, p.SCID...)
-						w.byAddr[clientAddr] = w.byAddr[clientAddr][:len(w.byAddr[clientAddr])-1] // not a candidate for lookups
-						if c.shadows == nil {
-							c.shadows = map[string]*TapConn{}
-						}
-						c.shadows[string(p.SCID)] = sh
-					}
-					c = sh
+					c = w.shadowOf(c, clientAddr, p.SCID)
 				}
 			}
 			p.Conn = c
@@ -899,6 +913,9 @@ func (w *Wiretap) Datagram(dir, ord int, clientAddr string, d []byte) []*TapPack
 							k2 = oc.hsKeys[dir]
 						}
 						if pn, pl, fb, pt, ok2 = tapTryOpen(k2, d[:end], pnOff, oc.largest[dir][sp], true); ok2 {
+							if dir == 1 && !oc.Shadow && oc.ServerSCID != nil && len(p.SCID) > 0 && !bytes.Equal(oc.ServerSCID, p.SCID) {
+								oc = w.shadowOf(oc, clientAddr, p.SCID) // the keys are oc's, the source ID is not: a shadow of oc
+							}
 							p.Conn, ok = oc, true
 							break
 						}
